@@ -68,6 +68,27 @@ func (f *fetcher) GetIP(ctx context.Context) (net.IP, error) {
 	return nil, errors.New("no public ip")
 }
 
+var errSameCause = errors.New("sendto: operation not permitted")
+
+// leafCount: the number of individual failures a joined error exposes.
+func leafCount(err error) int {
+	switch x := err.(type) {
+	case nil:
+		return 0
+	case interface{ Unwrap() []error }:
+		n := 0
+		for _, e := range x.Unwrap() {
+			n += leafCount(e)
+		}
+		return n
+	case interface{ Unwrap() error }:
+		if u := x.Unwrap(); u != nil {
+			return leafCount(u)
+		}
+	}
+	return 1
+}
+
 type aObs struct {
 	res   *result.Results
 	err   error
@@ -85,6 +106,9 @@ func runA(sc *AScn, prefix []int, sig []uint32) (*vsched.Exec, *aObs) {
 			o.errs[i] = &net.OpError{Op: "read", Net: "ip4", Err: fmt.Errorf("call %d: %w", i, os.ErrDeadlineExceeded)}
 		case 2:
 			o.errs[i] = fmt.Errorf("call %d timed out: %w", i, context.DeadlineExceeded)
+		case 3:
+			// every failing call fails with the SAME error value and text (one common cause: "operation not permitted")
+			o.errs[i] = errSameCause
 		default:
 			o.errs[i] = fmt.Errorf("injected failure of call %d", i)
 		}
@@ -164,10 +188,17 @@ func checkA(sc *AScn, x *vsched.Exec, o *aObs) (string, string) {
 		if o.res != nil {
 			return "result-with-error", ""
 		}
+		failed := 0
 		for i := 0; i < n; i++ {
-			if sc.FailMask&(1<<i) != 0 && !errors.Is(o.err, o.errs[i]) {
-				return "failure-not-exposed", fmt.Sprintf("the error %q does not expose the failure of call %d", o.err, i)
+			if sc.FailMask&(1<<i) != 0 {
+				failed++
+				if !errors.Is(o.err, o.errs[i]) {
+					return "failure-not-exposed", fmt.Sprintf("the error %q does not expose the failure of call %d", o.err, i)
+				}
 			}
+		}
+		if sc.ErrKind == 3 && leafCount(o.err) != failed {
+			return "failure-not-exposed", fmt.Sprintf("%d calls failed (all with the same cause), the error exposes %d individual failures: %q", failed, leafCount(o.err), o.err)
 		}
 		return "", ""
 	}
@@ -280,7 +311,7 @@ func blocks(tier string) []block {
 			if q >= 2 {
 				rd = 1
 			}
-			c := (1<<n + (1<<e - 1)) * fact(n) * len(pubs) * rd * 2 * 3
+			c := (1<<n + (1<<e - 1)) * fact(n) * len(pubs) * rd * 2 * errKinds(n)
 			bs = append(bs, block{q, e, bound, c, rd})
 		}
 	}
@@ -355,6 +386,15 @@ func partialA(tier string) []*AScn {
 
 func extraA(tier string) []*AScn { return append(append(cancelA(tier), manyA(tier)...), partialA(tier)...) }
 
+// errKinds: plain / timeout-kind / wrapped deadline / one common cause for every failure (the last one only for requests of
+// up to four calls: the largest blocks already take most of the thorough budget)
+func errKinds(n int) int {
+	if n >= 5 {
+		return 3
+	}
+	return 4
+}
+
 func countA(tier string) int {
 	t := 0
 	for _, b := range blocks(tier) {
@@ -378,8 +418,8 @@ func atA(tier string, idx int) *AScn {
 		}
 		n := b.q + b.e
 		sc := &AScn{Queries: b.q, E2e: b.e, Bound: b.bound}
-		sc.ErrKind = idx % 3
-		idx /= 3
+		sc.ErrKind = idx % errKinds(n)
+		idx /= errKinds(n)
 		sc.Stagger = idx%2 == 1
 		idx /= 2
 		sc.RDNS = idx%b.rd == 1
